@@ -119,6 +119,20 @@ pub open spec fn client_name_spec(u: ConnUserState) -> Seq<char> {
 }
 
 // ---- per-connection invariant ----
+// the replies: `fed(server, reply)` is what feed_msg queues; the text of each reply (its numeric and layout) is the Display of Reply - a
+// trusted rendering, pinned to its text; so are feed_msg / feed_msg_source themselves and the rank-prefix rendering of NAMES / WHO / WHOIS
+//@assumed reply.rs fmt::Display+for+Reply::fmt sha=46c83b6ae681
+//@assumed state/mod.rs MainState::feed_msg sha=e6c54daa707d
+//@assumed state/mod.rs MainState::feed_msg_source sha=63cec4a811e6
+//@assumed state/structs.rs ChannelUserModes::to_string sha=0463f40c90ea units=names,who,whois
+// the server object: config look-up tables (mainstate_wf is an ASSUMED invariant of MainState::new_from_config), password hashing
+//@assumed state/mod.rs MainState::new_from_config sha=23cfa0ae8dca units=conn,oper
+//@assumed utils.rs argon2_verify_password sha=1a19fd242069 units=conn,oper
+//@assumed utils.rs argon2_verify_password_async sha=6f4759998899 units=conn,oper
+// a fresh connection (conn_pre is assumed to hold for it) and one step of it
+//@assumed state/structs.rs ConnState::new sha=c0f08f14c746 units=teardown,slots
+//@assumed state/structs.rs ConnUserState::new sha=c1f7bc20cf87 units=teardown
+//@assumed state/mod.rs MainState::process sha=73f244b9888d units=teardown
 pub open spec fn conn_ok(k: ConnState, s: VolatileState) -> bool {
     &&& k.user_state.authenticated
     &&& k.user_state.nick is Some
